@@ -98,7 +98,9 @@ Theorem T07b_estimates_are_the_routines :
     r = mkRaw (free_names i) (solution out) (free_bounds i) (L (free_values i))
               (L (solution out)) (gradL (solution out)) (hessL (solution out)) (bhhhL (solution out))
               (convergence out) /\
-    s' = mkState (map (change_init_formula (combine (free_names i) (solution out))) (st_formulas s1)) i.
+    s' = mkState (map (change_init_formula (combine (free_names i) (solution out))) (st_formulas s1))
+                 (mkIdm (free_names i) (overlay (free_names i) (free_values i) (combine (free_names i) (solution out)))
+                        (free_bounds i)).
 Proof. exact estimate_unfold. Qed.
 Print Assumptions T07b_estimates_are_the_routines.
 
@@ -196,12 +198,15 @@ Qed.
 
 (* ---- T07e. write-back: after estimate() every Beta leaf of every formula keeps name, bounds and status;
         a leaf named like the k-th free parameter starts at the k-th estimate; a leaf whose name is not a free
-        parameter (the fixed ones) is untouched.  (The IdManager's own start values are NOT updated.) *)
+        parameter (the fixed ones) is untouched; and the starting vector of the object (id_manager.free_betas_values) holds the
+        estimates too (BIOGEME.change_init_values), so that a second estimate() starts at the estimates. *)
 Theorem T07e_writeback :
   forall L gradL hessL bhhhL junk_h junk_b N P ext alg p si saved s r s',
   est L gradL hessL bhhhL junk_h junk_b N P ext alg p si saved s = Some (r, s') ->
   NoDup (r_betaNames r) -> List.length (r_betaValues r) = List.length (r_betaNames r) ->
-  st_idm s' = st_idm (load_saved si saved s) /\
+  List.length (free_values (st_idm (load_saved si saved s))) = List.length (r_betaNames r) ->
+  free_names (st_idm s') = r_betaNames r /\ free_values (st_idm s') = r_betaValues r /\
+  free_bounds (st_idm s') = r_bounds r /\
   Forall2 (Forall2 (fun b b' =>
       b_name b' = b_name b /\ b_lb b' = b_lb b /\ b_ub b' = b_ub b /\ b_fixed b' = b_fixed b /\
       (forall k, (k < List.length (r_betaNames r))%nat -> b_name b = nth k (r_betaNames r) ""%string ->
@@ -336,7 +341,7 @@ Theorem T07h_estimate_skeleton :
    "raw_results = res.RawResults(self, xstar, f_g_h_b, bootstrap=self.bootstrap_results)";
    "r = res.bioResults(raw_results, identification_threshold=self.identification_threshold)";
    "estimated_betas = r.get_beta_values()";
-   "for f in self.formulas.values(): f.change_init_values(estimated_betas)";
+   "self.change_init_values(estimated_betas)";
    "return r"]%string.
 Proof. exact estimate_skeleton_ok. Qed.
 Print Assumptions T07h_estimate_skeleton.
